@@ -2,7 +2,7 @@
    This file holds ONLY the property theorems (each closed by `exact <lemma>`) and their Print Assumptions. *)
 From Coq Require Import ZArith List Bool.
 From Verif Require Import X86.X86Model X86.X86Proofs X86.X86Denote X86.X86DenoteProofs X86.X86DbCheck.
-From Verif Require Import X86.X86TablesSpec X86.X86Unique X86.X86UniqueProofs X86.X86JudgeProofs.
+From Verif Require Import X86.X86TablesSpec X86.X86Unique X86.X86UniqueProofs X86.X86JudgeProofs X86.X86LengthProofs X86.X86Choice.
 From VerifGen Require Import IsaX86Db X86Tables.
 Import ListNotations.
 Local Open Scope Z_scope.
@@ -72,6 +72,12 @@ Proof. exact opcode_layout_ok. Qed.
 Print Assumptions C01_opcode_layout.
 
 (* the instruction table pairs every instruction id with ALL database rows of its mnemonic *)
+(* the encoding classes are named in the corpus lists (mapped to numbers through the EncodingId enum of the working tree on every run);
+   the classes X86TablesSpec.v refers to by number (X86Arith, X86Rot, the eight x87 classes) have exactly those numbers in the tree *)
+Theorem C01_class_ids_pinned : enc_ids_of_tree = [25; 55; 66; 67; 68; 69; 70; 71; 72; 73] /\ unknown_class_names = 0.
+Proof. exact class_ids_ok. Qed.
+Print Assumptions C01_class_ids_pinned.
+
 Theorem C01_tables_grouping : grouping_ok db_rows inst_table = true.
 Proof. exact grouping_is_ok. Qed.
 Print Assumptions C01_tables_grouping.
@@ -111,6 +117,33 @@ Theorem C01_tables_opcode_size66_agree_db :
   forallb (fun p => negb (zmem (ie_enc (fst p)) size66_classes) || size66_inst_agrees (snd p) (fst p)) inst_table = true.
 Proof. exact size66_agree_ok. Qed.
 Print Assumptions C01_tables_opcode_size66_agree_db.
+
+(* (2c) round 5: 16 more classes derive the opcode from the stored word by the operand size (corpus/C01_sizebit_classes.txt: inc/dec,
+   mul/div/neg/not, cmpxchg, crc32, in/out, ins/outs, movsx/movzx, ret, shld/shrd, lods/scas/stos/cmps/movs, xadd): some database form
+   agrees with a word and EVERY database form of the mnemonic is a word, the word + 1 (size bit) or its 66-prefixed variant *)
+Theorem C01_tables_opcode_sizebit_agree_db :
+  forallb (fun p => negb (zmem (ie_enc (fst p)) sizebit_classes) || sizebit_inst_agrees (snd p) (fst p)) inst_table = true.
+Proof. exact sizebit_agree_ok. Qed.
+Print Assumptions C01_tables_opcode_sizebit_agree_db.
+
+(* (2d) X86Arith (8 mnemonics) and X86Rot (7): the forms the handler derives from the one stored word -- size, direction, accumulator,
+   immediate group 80/81/83 with the word's /digit; by 1 / by cl / by imm8 (o - 0x10) -- are written down in X86TablesSpec (arith_row_ok,
+   rot_row_ok): the word is a database form and EVERY database form of the mnemonic is a derived one; the literals 0x80 / 0x10 that
+   the specification assumes are present in the handler text of the working tree (class ids 25 / 55 of the pinned enum) *)
+Theorem C01_tables_arith_rot_agree_db :
+  forallb (fun p => negb (ie_enc (fst p) =? 25) || derived_inst_agrees arith_row_ok (snd p) (fst p)) inst_table &&
+  forallb (fun p => negb (ie_enc (fst p) =? 55) || derived_inst_agrees rot_row_ok (snd p) (fst p)) inst_table &&
+  existsb (fun l => (fst l =? 0) && (snd l =? 128)) hl_arith && existsb (fun l => (fst l =? 0) && (snd l =? 16)) hl_rot = true.
+Proof. exact arith_rot_agree_ok. Qed.
+Print Assumptions C01_tables_arith_rot_agree_db.
+
+(* (2e) ten further classes (call, jmp, imul, nop, push, pop, test, xchg, movq; VEX/EVEX vpextrw): the opcode literals of each handler block --
+   read from the text of x86assembler.cpp -- and the segment-register push / pop tables -- dumped -- are opcodes of database forms of the
+   class, and every database form of every instruction of the class is a stored word (or word + 1 / 66) or a literal (l, l + 1, l - 2) *)
+Theorem C01_tables_class_literals_agree_db :
+  forallb (fun cl => class_lits_agree inst_table (fst cl) (snd cl)) hl_classes && (Z.of_nat (length hl_classes) =? 10) = true.
+Proof. exact class_lits_ok. Qed.
+Print Assumptions C01_tables_class_literals_agree_db.
 
 (* (3) x87 FpuOp class (two opcode bytes in one word): escape byte and fixed ModRM byte agree with a database form.
    PARTIAL overall: the other derived-opcode classes (mov, arithmetic immediates, shifts, jcc, far, pextr, the remaining x87
@@ -161,6 +194,22 @@ Theorem C01_judge_ok_spec : forall m name ops dc bs,
      ops_match m (explicit_specs (r_ops r)) (op_bits (r_ops r)) ops (explicit_only (r_ops r) dops) = true).
 Proof. exact (judge_ok_spec bucket wbucket row_of). Qed.
 Print Assumptions C01_judge_ok_spec.
+
+(* ... at full strength (round 5): the converse -- any full-length reading that is a form of the called mnemonic with matching decorations
+   and operands forces verdict 0 (so verdict 0 is EQUIVALENT to the existence of such a reading), and verdict 1 is exactly "no reading" *)
+Theorem C01_judge_ok_complete : forall m name ops dc bs rid dops dd r,
+  In (rid, dops, dd, length bs) (denote2 bucket wbucket m bs) -> row_of rid = Some r -> r_name r = name ->
+  deco_match dc dd = true ->
+  (ops_match m (r_ops r) (op_bits (r_ops r)) ops dops = true \/
+   ops_match m (explicit_specs (r_ops r)) (op_bits (r_ops r)) ops (explicit_only (r_ops r) dops) = true) ->
+  fst (judge bucket wbucket row_of m name ops dc bs) = 0.
+Proof. exact (judge_ok_complete bucket wbucket row_of). Qed.
+Print Assumptions C01_judge_ok_complete.
+
+Theorem C01_judge_no_reading_spec : forall m name ops dc bs,
+  fst (judge bucket wbucket row_of m name ops dc bs) = 1 <-> denote2 bucket wbucket m bs = [].
+Proof. exact (judge_no_reading_spec bucket wbucket row_of). Qed.
+Print Assumptions C01_judge_no_reading_spec.
 
 (* the judge's comparison of prefixes and decorations, in terms of the BYTES: verdict 0 means the call's lock prefix, opmask
    register and zeroing bit are those of the decoded head of the appended bytes, and its rep/repne, free-standing segment prefix
@@ -238,6 +287,32 @@ Proof.
 Qed.
 Print Assumptions C01_fwait_reading.
 
+(* round 5: the decoders return suffixes (X86LengthProofs.v: every decoder of the structural model, the head decoder a proper suffix),
+   so EVERY reading of ANY byte string is between one byte and the bytes given -- for all inputs, no sweep *)
+Theorem C01_denote_len_bounds : forall m bs rid ops dd len,
+  In (rid, ops, dd, len) (denote2 bucket wbucket m bs) -> (1 <= len <= length bs)%nat.
+Proof. exact (denote2_len_bounds bucket wbucket). Qed.
+Print Assumptions C01_denote_len_bounds.
+
+(* ... hence the two readings of bytes that start with 9B never have the same length: FWAIT alone is one byte, a wait reading at least two *)
+Theorem C01_denote2_readings_separated : forall m rest rid1 ops1 dd1 len1 rid2 ops2 dd2 len2,
+  In (rid1, ops1, dd1, len1) (denote bucket m (155 :: rest)) -> In (rid2, ops2, dd2, len2) (denote wbucket m rest) ->
+  len1 = 1%nat /\ (2 <= S len2)%nat.
+Proof.
+  intros m rest rid1 ops1 dd1 len1 rid2 ops2 dd2 len2 H1 H2. split.
+  - destruct (C01_fwait_reading _ _ _ _ _ _ H1) as [r [_ [_ [_ Hl]]]]. exact Hl.
+  - exact (wait_reading_len wbucket m rest rid2 ops2 dd2 len2 H2).
+Qed.
+Print Assumptions C01_denote2_readings_separated.
+
+(* non-vacuity of the length / reading theorems: 9B alone has exactly the one-byte FWAIT reading; 9B DD 38 has the one-byte FWAIT
+   reading and the three-byte fstsw reading *)
+Theorem C01_example_readings_of_9b :
+  map (fun c => match c with (_, _, _, len) => len end) (denote2 bucket wbucket M32 [155]) = [1%nat] /\
+  map (fun c => match c with (_, _, _, len) => len end) (denote2 bucket wbucket M32 [155; 221; 56]) = [1%nat; 3%nat].
+Proof. exact ex_fwait_alone. Qed.
+Print Assumptions C01_example_readings_of_9b.
+
 (* witnesses: fstsw [eax] = 9B DD 38; an override prefix before the 9B is FWAIT's (the defect repaired by bed3c82), after it the operand's *)
 Theorem C01_example_fstsw_wait : fst (judge bucket wbucket row_of M32 id_fstsw [OMem 2 0 3 0 0 0 0 0 0] (mkD false false false 0 0 false (-1)) [155; 221; 56]) = 0.
 Proof. exact ex_fstsw_wait. Qed.
@@ -302,9 +377,35 @@ Theorem C01_db_same_ops :
 Proof. exact (conj db_same_ops_raw db_wait_same_ops_raw). Qed.
 Print Assumptions C01_db_same_ops.
 
+(* non-vacuity of (3): a same-mnemonic pair of distinct rows passes both overlap relations; another passes the old relation only *)
+Theorem C01_db_same_ops_nonvacuous :
+  same_name_pair (fun r1 r2 => may_overlap r1 r2 && extra_overlap r1 r2 && ops_eqb (r_ops r1) (r_ops r2)) &&
+  same_name_pair (fun r1 r2 => may_overlap r1 r2 && negb (extra_overlap r1 r2) && negb (ops_eqb (r_ops r1) (r_ops r2))) = true.
+Proof. exact db_same_ops_nonvacuous. Qed.
+Print Assumptions C01_db_same_ops_nonvacuous.
+
 Theorem C01_db_unique : forallb (fun o => bucket_unique db_aliases (bucket_raw o)) (zrange 256) = true.
 Proof. exact db_unique_raw. Qed.
 Print Assumptions C01_db_unique.
+
+(* round 5: a piece of the EMITTER inside the model.  X86Choice.aj_mod is AsmJit's choice of the ModRM.mod field for a memory operand with
+   a base register (EmitModSib), written after the source.  It is an admissible choice of the structural encoder -- so C01_sdec_senc covers
+   what AsmJit chooses -- and the shortest one; the check compares it with the mod field actually emitted on every accepted call
+   (evidence: calls_whose_mod_field_is_the_modelled_choice; the only deviations are the known EVEX + 16-bit-addressing finding) *)
+Theorem C01_aj_mod_admissible : forall a16 n mm v3 sib, adm_mem a16 n mm (mkC v3 (aj_mod a16 n mm) sib) = true.
+Proof. exact aj_mod_adm. Qed.
+Print Assumptions C01_aj_mod_admissible.
+
+Theorem C01_aj_mod_shortest : forall a16 n mm c, adm_mem a16 n mm c = true -> 0 <= c_mod c -> aj_mod a16 n mm <= c_mod c.
+Proof. exact aj_mod_minimal. Qed.
+Print Assumptions C01_aj_mod_shortest.
+
+Theorem C01_aj_mod_examples :
+  aj_mod false 1 (mkM (BReg 5) None 0 0) = 1 /\ aj_mod false 1 (mkM (BReg 13) None 0 0) = 1 /\ aj_mod false 1 (mkM (BReg 0) None 0 0) = 0 /\
+  aj_mod false 64 (mkM (BReg 0) None 0 8128) = 1 /\ aj_mod false 64 (mkM (BReg 0) None 0 8192) = 2 /\ aj_mod false 64 (mkM (BReg 0) None 0 65) = 2 /\
+  aj_mod true 1 (mkM (BReg 5) None 0 0) = 1 /\ aj_mod true 1 (mkM (BReg 5) (Some 6) 0 0) = 0.
+Proof. exact aj_mod_examples. Qed.
+Print Assumptions C01_aj_mod_examples.
 
 (* witnesses on the regenerated database: accepted encodings are mapped back to their call ... *)
 Theorem C01_example_add_rax_rcx : fst (judge bucket wbucket row_of M64 id_add [OReg 4 0; OReg 4 1] (mkD false false false 0 0 false (-1)) [72; 1; 200]) = 0.
